@@ -25,7 +25,7 @@ func init() {
 	runner.Register(&runner.Check{
 		ID:    "C10",
 		Level: "model_checking",
-		Rule: "large-chunk family: 1 or 3 chunks of one size in {4 KiB, 32 KiB, 64 KiB, 64 KiB+1, 1 MiB} (thorough: 10 sizes from 1 byte) supplied out of one buffer that the caller overwrites after every call, request and response side, slice and reader entry points, with and without a spill at the second chunk: the body read back equals the bytes supplied. Main search: configuration = side {request, response} x limit L in 1..5 (thorough 1..9) x in-memory limit M in {L, 1, L-1} (request side: M<L spills to a temp file) x action {Reject, ProcessPartial} x body processor {urlencoded, RAW via ctl} x optional per-transaction ctl:requestBodyLimit/responseBodyLimit in {2, 0, -1} (non-positive values must not take effect); " +
+		Rule: "large-chunk family: 1 or 3 chunks of one size in {4 KiB, 32 KiB, 64 KiB, 64 KiB+1, 1 MiB} (thorough: 10 sizes from 1 byte) supplied out of one buffer that the caller overwrites after every call, request and response side, slice and reader entry points, with and without a spill at the second chunk: the body read back equals the bytes supplied. Main search: configuration = side {request, response} x limit L in 1..5 (thorough 1..9) x in-memory limit M in {L, 1, L-1} (request side: M<L spills to a temp file) x action {Reject, ProcessPartial} x body processor {urlencoded, RAW via ctl} x optional per-transaction ctl:requestBodyLimit/responseBodyLimit in {2, 6 (above the configured limit), 0, -1} (non-positive values must not take effect); " +
 			"breadth-first search over all sequences (depth <= 4 quick / 8 thorough) of 13 body-supplying calls {Write(0..3 bytes), ReadFrom(reader with Len, 1/2/3/5 bytes), ReadFrom(plain reader, 1/2/3/5 bytes), ReadFrom(reader failing after 2 bytes)}; byte i of the supplied stream is 'a'+i so loss, duplication and reordering are visible; " +
 			"on every transition the returned (interruption, n, err), the body reader content, REQUEST_BODY/RESPONSE_BODY after the body phase, INBOUND/OUTBOUND_DATA_ERROR and the body-phase counter are compared with an arithmetic model; a state is (stored bytes, bytes offered, interruption, body-phase count, limit flag); every history is then repeated on the pool-recycled transaction object, which must behave identically",
 		Assumptions: []string{
@@ -208,8 +208,8 @@ func configs(thorough bool, emit func(cfg)) {
 						emit(cfg{Side: side, L: L, M: M, Action: a, Proc: p})
 					}
 					if L == 4 && M == L {
-						// per-transaction limit overrides: lower, zero, negative
-						for _, v := range []int{2, 0, -1} {
+						// per-transaction limit overrides: lower, higher than the configured limit, zero, negative
+						for _, v := range []int{2, 6, 0, -1} {
 							v := v
 							emit(cfg{Side: side, L: L, M: M, Action: a, Proc: "urlencoded", Ctl: &v})
 						}
